@@ -259,3 +259,73 @@ Proof.
   - intros y m d. rewrite X_date_int. apply date_total.
   - intros n k. rewrite X_eomonth_int, X_edate_int. apply months_total.
 Qed.
+
+(* --------------------------------- out-of-range results are exactly #NUM! *)
+Lemma date_tail_num y m d : y < 1899 \/ 10000 <= y -> date_tail y m d = excelutil.c_NUM_ERROR.
+Proof.
+  intros Hy. unfold date_tail.
+  destruct ((1 <=? y) && (y <=? 9999) && (1 <=? m) && (m <=? 12) && (1 <=? d) && (d <=? days_in_month y m)) eqn:V.
+  - repeat (apply andb_true_iff in V; destruct V as [V ?]).
+    repeat match goal with H : (_ <=? _) = true |- _ => apply Z.leb_le in H end.
+    assert (L : ymd2ord y m d < 693594).
+    { pose proof (ymd2ord_year_lt y m d 1899 1 1 ltac:(lia) ltac:(lia) ltac:(lia) ltac:(lia)) as Q.
+      change (ymd2ord 1899 1 1) with 693231 in Q. lia. }
+    cbv zeta. replace (ymd2ord y m d - 693594 <=? 60) with true by (symmetry; apply Z.leb_le; lia).
+    replace (ymd2ord y m d - 693594 - 1 <? 0) with true by (symmetry; apply Z.ltb_lt; lia). reflexivity.
+  - replace (y =? 1900) with false by (symmetry; apply Z.eqb_neq; lia). reflexivity.
+Qed.
+
+(* the forward day carry past 9999-12-31 is #NUM! *)
+Lemma day_carry_overflow y m d : 1900 <= y <= 9999 ->
+  1900 <= nyear y m -> (nyear y m = 1900 -> 3 <= nmonth m) ->
+  1 <= d <= 25000 -> 2958465 < ymd2ord (nyear y m) (nmonth m) 1 - 693594 + d - 1 ->
+  date_time.f_date (VInt y) (VInt m) (VInt d) = Ok excelutil.c_NUM_ERROR.
+Proof.
+  intros Hy Hy2 H3 Hd Hr. pose proof (nmonth_range m) as Hm.
+  assert (Ya : yadj y = y) by (unfold yadj; replace (y <? 1900) with false by (symmetry; apply Z.ltb_ge; lia); reflexivity).
+  destruct (normalize_carry 899 (nyear y m) (nmonth m) d ltac:(lia) Hm H3 ltac:(lia))
+    as (y' & m' & d' & R & A1 & A2 & A3 & A4 & A5).
+  rewrite (date_norm y m d y' m' d') by
+    (try lia; rewrite Ya; unfold py_recursion_fuel; rewrite normalize_month; exact R).
+  rewrite (ymd2ord_day (nyear y m) (nmonth m) d) in A5.
+  assert (10000 <= y').
+  { destruct (Z_le_dec 10000 y') as [L|G]; [exact L|].
+    pose proof (ymd2ord_le_max y' m' d' ltac:(lia) ltac:(lia) ltac:(lia)). unfold MAXORD in *. lia. }
+  rewrite date_tail_num by lia. reflexivity.
+Qed.
+
+(* EDATE / EOMONTH whose target month lies before 1899 or after 9999 are #NUM!
+   (y3, m3: the month after the target, whose first day EOMONTH computes) *)
+Lemma months_out_of_calendar n k y m d : 60 < n <= 2958465 -> ord2ymd (693594 + n) = (y, m, d) ->
+  (let y2 := nyear y (m + k) in let m2 := nmonth (m + k) in
+   (m2 = 2 -> 0 < y2) -> y2 < 1899 \/ 10000 <= y2 ->
+   date_time.f_edate (VInt n) (VInt k) = Ok excelutil.c_NUM_ERROR)
+  /\ (let y3 := nyear y (m + k + 1) in let m3 := nmonth (m + k + 1) in
+      (m3 = 2 -> 0 < y3) -> y3 < 1899 \/ 10000 <= y3 ->
+      date_time.f_eomonth (VInt n) (VInt k) = Ok excelutil.c_NUM_ERROR).
+Proof.
+  intros Hn E. destruct (from_int_spec n y m d Hn E) as (F & Hy & Hm & Hd & Ho & HL).
+  assert (Ya : yadj y = y) by (unfold yadj; replace (y <? 1900) with false by (symmetry; apply Z.ltb_ge; lia); reflexivity).
+  split.
+  - intros y2 m2 H2 Hy2.
+    rewrite (months_inc_ed n k y m d ltac:(lia) F H2). fold y2 m2. cbv zeta.
+    pose proof (xdim_bounds y2 m2 (nmonth_range (m + k))) as B.
+    set (dd := if xdim y2 m2 <? d then xdim y2 m2 else d).
+    assert (Hdd : 1 <= dd <= xdim y2 m2).
+    { unfold dd. destruct (xdim y2 m2 <? d) eqn:C; [apply Z.ltb_lt in C|apply Z.ltb_ge in C]; lia. }
+    pose proof (normalize_fits 899 y (m + k) dd H2 Hdd) as N. rewrite <- Ya in N at 1.
+    rewrite (date_norm y (m + k) dd _ _ _ ltac:(lia) N). fold y2. rewrite date_tail_num by lia. reflexivity.
+  - intros y3 m3 H3 Hy3.
+    rewrite (months_inc_eo n k y m d ltac:(lia) F).
+    pose proof (xdim_bounds y3 m3 (nmonth_range (m + k + 1))) as B.
+    pose proof (normalize_fits 899 y (m + k + 1) 1 H3 ltac:(fold y3 m3; lia)) as N. rewrite <- Ya in N at 1.
+    rewrite (date_norm y (m + k + 1) 1 _ _ _ ltac:(lia) N). fold y3. rewrite date_tail_num by lia.
+    reflexivity.
+Qed.
+
+Example out_of_range_ex :
+  date_time.f_date (VInt 9999) (VInt 12) (VInt 32) = Ok excelutil.c_NUM_ERROR
+  /\ ymd2ord 9999 12 1 - 693594 + 32 - 1 = 2958466
+  /\ date_time.f_edate (VInt 2958465) (VInt 1) = Ok excelutil.c_NUM_ERROR
+  /\ date_time.f_eomonth (VInt 100) (VInt (-30)) = Ok excelutil.c_NUM_ERROR.
+Proof. repeat split; vm_compute; reflexivity. Qed.
